@@ -27,7 +27,7 @@ def _entries(v):
     return [(None, v)]
 
 
-def h_sim_equal(ctx, skeleton, script, date, n=3, args=None, tz=None, date_tz=None):
+def h_sim_equal(ctx, skeleton, script, date, n=3, args=None, tz=None, date_tz=None, reference="updated"):
     """date_tz: the simulation date (same instant) written in another time zone than UTC"""
     spec = M.SKELETONS[skeleton](n, **(args or {}))
     if tz:
@@ -76,12 +76,20 @@ def h_sim_equal(ctx, skeleton, script, date, n=3, args=None, tz=None, date_tz=No
                     f"{where}: the baseline value is the one held by the model after the simulation")
     # every calculated attribute that the really-updated model changes must have a twin: checked through equality below
     # the really-updated model
-    U = M.build(spec, env0)
-    changes_u = []
-    for e in prims:
-        o, a = E.attr_of(e)
-        changes_u.append([getattr(U[o], a), E.new_value(env0, spec, e)(U)])
-    ModelingUpdate(changes_u)
+    if reference == "fresh":
+        # reference = the model built from scratch with the changed inputs (on systems where a job is shared by two usage
+        # patterns a *live* update of the reference model is itself stale: finding R1 of C01)
+        spec_u, env_u = spec, env0
+        for e in prims:
+            spec_u, env_u = E.mirror(spec_u, env_u, e)
+        U = M.build(spec_u, env_u)
+    else:
+        U = M.build(spec, env0)
+        changes_u = []
+        for e in prims:
+            o, a = E.attr_of(e)
+            changes_u.append([getattr(U[o], a), E.new_value(env0, spec, e)(U)])
+        ModelingUpdate(changes_u)
     V.observe_system(ctx, U, "updated.")
     recomputed_attrs = set()
     for a, b in zip(vtr, rv):
@@ -145,10 +153,10 @@ def plan(tier, seed):
         p.append(("sim_equal", dict(skeleton="T1", script=sc, date="interior_half")))
     for sc in (SCRIPTS_T9[0], SCRIPTS_T9[3]):
         p.append(("sim_equal", dict(skeleton="T9", script=sc, date="interior_half", n=3)))
-    # a job shared by two usage patterns (per-usage-pattern dictionaries with two entries); only changes for which the
-    # really-updated model itself is right on this topology (finding R1 makes duration edits stale there)
+    # a job shared by two usage patterns (per-usage-pattern dictionaries with two entries); the reference is the model built
+    # from scratch with the changed input (finding R1 makes a live update of the reference stale on this topology)
     for sk in ("T3", "T2"):
-        p.append(("sim_equal", dict(skeleton=sk, script=[num("job", "data_transferred")], date="first", n=2)))
+        p.append(("sim_equal", dict(skeleton=sk, script=[num("job", "data_transferred")], date="first", n=2, reference="fresh")))
     # the same instants written in zones east and west of UTC
     for d, z in (("first", "Asia/Tokyo"), ("first", "America/New_York"), ("interior", "Asia/Kolkata"), ("last", "America/Los_Angeles")):
         p.append(("sim_equal", dict(skeleton="T1", script=SCRIPTS_T1[0], date=d, date_tz=z)))
